@@ -448,40 +448,44 @@ def t_impl_indef(ctx, prog):
             ev = expand_reps(eo.st.events)
             if ev is None:
                 continue
-            lead = 0
-            while lead < len(ev) and ev[lead][1] == 'TAG':
-                lead += 1
-            rf = reframe(ev, lead)
-            if rf is None:
-                continue
-            key = '%s|%s' % (t, ','.join('%s=%s' % kv for kv in sorted(summaries.choices(eo.st).items())) or 'all')
-            try:
-                r = l2.run_decode(prog, dec[t]['trait_ref'] + '::decode', rf, from_state=eo.st)
-            except Abort as ex:
-                ctx.fail_closed('T-IMPL.indef', '%s: decode cannot be interpreted: %s' % (t, ex))
-                continue
-            n += 1
-            good = True
-            want = [x[3] for x in rf if x[0] == 'ITEM' and x[1] == 'ENC']
-            for o in r[1]:
-                if o.kind != 'return':
-                    ctx.violation('T-IMPL.indef.total', key, 'path does not return: %s' % o.why, where)
-                    good = False
+            lead0 = 0
+            while lead0 < len(ev) and ev[lead0][1] == 'TAG':
+                lead0 += 1
+            # every definite container the impl itself writes (the outermost one and nested ones such as the empty
+            # array of Bound::Unbounded) is re-framed, one at a time
+            leads = [i for i, x in enumerate(ev) if x[0] == 'ITEM' and x[1] in ('ARRAY', 'MAP') and isinstance(x[2], Int) and x[2].is_const()]
+            for lead in leads:
+                rf = reframe(ev, lead)
+                if rf is None:
                     continue
-                if l1.result_kind(o.value) != 'Ok':
+                key = '%s|%s%s' % (t, ','.join('%s=%s' % kv for kv in sorted(summaries.choices(eo.st).items())) or 'all', '' if lead == lead0 else '|inner@%d' % lead)
+                try:
+                    r = l2.run_decode(prog, dec[t]['trait_ref'] + '::decode', rf, from_state=eo.st)
+                except Abort as ex:
+                    ctx.fail_closed('T-IMPL.indef', '%s: decode cannot be interpreted: %s' % (t, ex))
                     continue
-                accepted += 1
-                if l2.cur(o.st) != len(l2.stream(o.st)):
-                    rest = l2.stream(o.st)[l2.cur(o.st):]
-                    good = False
-                    ctx.violation('T-IMPL.indef', key + '|consumption', 'the indefinite-length form %s is accepted but %d item(s) are left unread (%s): the position is not at the end of the item' % (fmt_items(rf)[:100], len(rest), fmt_items(rest)[:60]), where)
-                    continue
-                got = [x[3] for x in o.st.events if x[0] == 'DECODED']
-                if got != want:
-                    good = False
-                    ctx.violation('T-IMPL.indef', key + '|order', 'components are read as %s, the encoding has %s' % (got, want), where)
-            if good:
-                ctx.ok('T-IMPL.indef', key)
+                n += 1
+                good = True
+                want = [x[3] for x in rf if x[0] == 'ITEM' and x[1] == 'ENC']
+                for o in r[1]:
+                    if o.kind != 'return':
+                        ctx.violation('T-IMPL.indef.total', key, 'path does not return: %s' % o.why, where)
+                        good = False
+                        continue
+                    if l1.result_kind(o.value) != 'Ok':
+                        continue
+                    accepted += 1
+                    if l2.cur(o.st) != len(l2.stream(o.st)):
+                        rest = l2.stream(o.st)[l2.cur(o.st):]
+                        good = False
+                        ctx.violation('T-IMPL.indef', key + '|consumption', 'the indefinite-length form %s is accepted but %d item(s) are left unread (%s): the position is not at the end of the item' % (fmt_items(rf)[:100], len(rest), fmt_items(rest)[:60]), where)
+                        continue
+                    got = [x[3] for x in o.st.events if x[0] == 'DECODED']
+                    if got != want:
+                        good = False
+                        ctx.violation('T-IMPL.indef', key + '|order', 'components are read as %s, the encoding has %s' % (got, want), where)
+                if good:
+                    ctx.ok('T-IMPL.indef', key)
     ctx.count('T-IMPL.indef.accepting_paths', accepted)
     ctx.floor('T-IMPL.indef', 're-framed encodings', n, 30)
 
@@ -492,4 +496,158 @@ _run_iter = run
 def run(ctx):
     r = _run_iter(ctx)
     t_impl_indef(ctx, load.program('core-full'))
+    return r
+
+
+# ---------------------------------------------------------------------------
+# T-CHUNK: step function of the string chunk iterators (byte level)
+
+CHUNK_ITERS = [("<minicbor::decode::decoder::BytesIter<'a, 'b> as std::iter::Iterator>::next", 'BytesIter', 2),
+               ("<minicbor::decode::decoder::StrIter<'a, 'b> as std::iter::Iterator>::next", 'StrIter', 3)]
+
+
+def t_chunk(ctx, prog):
+    """one next() of BytesIter / StrIter from every iterator state, at the byte level (the checked input primitives fork on
+    exhaustion): the sequence ends (None) only after a definite string was handed out or on a consumed break byte; a chunk is
+    a *definite* string of the same major type whose head and payload are consumed exactly; running out of input anywhere is
+    Some(Err(end of input)) - never the end of the sequence, never another class."""
+    from .. import l1
+    from ..absint import State, Adt
+    from ..prims import some, NONE, OPTION, RESULT, norm_adt
+    ctx.rules_run.append('T-CHUNK: one next() of BytesIter/StrIter from each state (indefinite / definite pending / done) x every next byte x exhaustion: '
+                         'None only after the definite payload or on a consumed break; chunks are definite strings of the same major type, consumed exactly; '
+                         'exhaustion is Some(Err(end of input))')
+    n = 0
+    for path, short, major in CHUNK_ITERS:
+        inst = prog.one(path)
+        if inst is None:
+            ctx.fail_closed('T-CHUNK', 'anchor missing: %s' % path)
+            continue
+        where = mir.loc(inst['sp'])
+        ad = prog.adts.get('minicbor::decode::decoder::' + short)
+        if ad is None or 'len' not in ad['variants'][0]['fields']:
+            ctx.fail_closed('T-CHUNK', '%s has no `len` field any more' % short)
+            continue
+        li = ad['variants'][0]['fields'].index('len')
+        for lname, lenv, rng in (('None', NONE, None), ('Some(0)', some(Int.const(0)), None), ('Some(n>=1)', some(Int.sym('rem')), ((1, (1 << 63) - 1),))):
+            m = l1.decoder_machine(prog)
+            st = State()
+            if rng:
+                st.ranges['rem'] = rng
+                st.symty['rem'] = 'usize'
+            body = inst['body']
+            names = dict((l, nm) for l, nm in body['names'])
+            args = [m.make_value(st, body['locals'][i], names.get(i, 'a%d' % i)) for i in range(1, body['argc'] + 1)]
+            a0 = args[0]
+            it = m.read_path(st, a0.key, a0.path)
+            if not (isinstance(it, Adt) and len(it.fields) > li):
+                ctx.fail_closed('T-CHUNK', '%s: unexpected iterator value %r' % (short, it))
+                continue
+            fs = list(it.fields)
+            fs[li] = lenv
+            m.write_path(st, a0.key, a0.path, Adt(it.adt, it.variant, fs))
+            try:
+                outs = m.run(inst, args, st)
+            except Abort as e:
+                ctx.fail_closed('T-CHUNK', '%s (len=%s) cannot be interpreted: %s' % (short, lname, e))
+                continue
+            seen_chunk = seen_end = False
+            for o in outs:
+                n += 1
+                r = tables.DRow(prog, o)
+                if o.kind != 'return':
+                    ctx.violation('T-CHUNK.total', '%s|len=%s' % (short, lname), 'path does not return: %s' % o.why, where)
+                    continue
+                v = o.value
+                it2 = m.read_path(o.st, a0.key, a0.path)
+                ln = it2.fields[li] if isinstance(it2, Adt) else None
+                lns = 'None' if (isinstance(ln, Adt) and ln.variant == 0) else ('Some(%r)' % (ln.fields[0],) if isinstance(ln, Adt) and ln.fields else repr(ln))
+                cons = r.consumed()
+                eoi = r.eoi()
+                cell = r.cell()
+                key = '%s|len=%s|%s' % (short, lname, cell or ('eoi' if eoi else '-'))
+                is_none = isinstance(v, Adt) and norm_adt(v.adt) == OPTION and v.variant == 0
+                inner = v.fields[0] if isinstance(v, Adt) and norm_adt(v.adt) == OPTION and v.variant == 1 else None
+                is_ok = isinstance(inner, Adt) and norm_adt(inner.adt) == RESULT and inner.variant == 0
+                is_err = isinstance(inner, Adt) and norm_adt(inner.adt) == RESULT and inner.variant == 1
+                cls = l1.error_class(prog, inner.fields[0]) if is_err else None
+                if eoi:
+                    if is_err and cls == 'EndOfInput':
+                        ctx.ok('T-CHUNK', key + '|eoi')
+                    else:
+                        ctx.violation('T-CHUNK', '%s|len=%s|eoi' % (short, lname), 'the input ends inside the string (%s) and next() %s; expected Some(Err(end of input)): a strict prefix must not be accepted'
+                                      % (eoi[0][1], 'ends the sequence (None)' if is_none else ('yields a chunk' if is_ok else 'reports ' + str(cls))), where)
+                    continue
+                if is_err and cls == 'EndOfInput':
+                    ctx.violation('T-CHUNK', key + '|spurious-eoi', 'end-of-input error although no read failed', where)
+                    continue
+                if lname == 'Some(0)':
+                    if is_none and not cons and lns == 'Some(0)':
+                        ctx.ok('T-CHUNK', key)
+                        seen_end = True
+                    else:
+                        ctx.violation('T-CHUNK', '%s|done' % short, 'after the definite payload was handed out next() %s (consumed %r, len -> %s); expected None without consuming' % ('returns None' if is_none else 'yields again', cons, lns), where)
+                    continue
+                if lname == 'Some(n>=1)':
+                    want = [('READSLICE', Int.sym('rem'))]
+                    if (is_ok or (is_err and cls == 'Utf8' and major == 3)) and cons == want and lns == 'Some(0)':
+                        ctx.ok('T-CHUNK', key + ('|ok' if is_ok else '|utf8'))
+                        seen_chunk = seen_chunk or is_ok
+                    else:
+                        ctx.violation('T-CHUNK', '%s|definite' % short, 'definite string of n bytes pending: next() %s consuming %r, len -> %s; expected the n payload bytes as one chunk and len -> Some(0)'
+                                      % ('ends the sequence' if is_none else ('yields a chunk' if is_ok else 'reports ' + str(cls)), cons, lns), where)
+                    continue
+                # indefinite: dispatch on the next byte
+                ds = list(acc.decomp(r))
+                if not ds:
+                    ctx.violation('T-CHUNK', key + '|shape', 'cannot relate the consumption %r to an initial byte' % (cons,), where)
+                    continue
+                for d in ds:
+                    part, mj, w = d['part'], d['major'], d['w']
+                    k2 = '%s|indef|ib=%s' % (short, iv_str(part))
+                    if lns != 'None':
+                        ctx.violation('T-CHUNK', k2 + '|len', 'the iterator leaves indefinite mode (len -> %s)' % lns, where)
+                        continue
+                    if mj == 7 and w == 'indef':     # break
+                        if is_none and cons == [('READ1', d['b0'])]:
+                            ctx.ok('T-CHUNK', k2 + '|break')
+                            seen_end = True
+                        else:
+                            ctx.violation('T-CHUNK', '%s|break' % short, 'on the break byte next() %s having consumed %r; expected None with exactly the break consumed' % ('returns None' if is_none else 'does not end the sequence', cons), where)
+                        continue
+                    if is_none:
+                        ctx.violation('T-CHUNK', k2 + '|early-end', 'the sequence ends on initial byte %s, which is not the break' % iv_str(part), where)
+                        continue
+                    if mj == major and w in (0, 1, 2, 4, 8):
+                        if is_err and not d.get('truncated'):
+                            if major == 3 and cls == 'Utf8':
+                                ctx.ok('T-CHUNK', k2 + '|utf8', nontrivial=False)
+                            else:
+                                ctx.violation('T-CHUNK', k2 + '|rejected', 'a definite chunk %s is rejected with %s' % (iv_str(part), cls), where)
+                            continue
+                        rest = d.get('rest') or []
+                        if is_ok and d['arg'] is not None and len(rest) == 1 and rest[0][0] == 'READSLICE' and rest[0][1] == d['arg']:
+                            ctx.ok('T-CHUNK', k2 + '|chunk')
+                            seen_chunk = True
+                        else:
+                            ctx.violation('T-CHUNK', k2 + '|consumption', 'chunk with head %s: consumed %r; expected the head and exactly the announced payload' % (iv_str(part), cons), where)
+                        continue
+                    # anything else (other major type, nested indefinite string, reserved info) is not a valid chunk
+                    if is_ok:
+                        ctx.violation('T-CHUNK', k2 + '|accepted', 'initial byte %s is accepted as a chunk of an indefinite %s string' % (iv_str(part), 'text' if major == 3 else 'byte'), where)
+                    else:
+                        ctx.ok('T-CHUNK', k2 + '|rejected', nontrivial=False)
+            if lname != 'Some(0)' and not seen_chunk:
+                ctx.violation('T-CHUNK', '%s|len=%s|nochunk' % (short, lname), 'no path yields a chunk', where)
+            if lname != 'Some(n>=1)' and not seen_end:
+                ctx.violation('T-CHUNK', '%s|len=%s|noend' % (short, lname), 'no path ends the sequence', where)
+    ctx.floor('T-CHUNK', 'step paths', n, 100)
+
+
+_run_impl = run
+
+
+def run(ctx):
+    r = _run_impl(ctx)
+    t_chunk(ctx, load.program('core-full'))
     return r
